@@ -72,6 +72,10 @@ class ShardCtx:
     def ev(self, n=1):
         self.evaluations += n
 
+    def counters_snapshot(self):
+        """a number that moves whenever the workload makes any progress (used by the stall detector)"""
+        return self.evaluations + sum(self.bins.values()) + sum(self.monitors.values()) + len(self.hashes)
+
     def bin(self, name, n=1):
         self.bins[name] = self.bins.get(name, 0) + n
 
